@@ -284,7 +284,54 @@ def g_lattice(rng, n, prefix_name="v"):
     return "\n".join(lines)
 
 
+def g_modulated(rng, extra=True):
+    """Input-modulated modules: one or two inputs switch the *logic* of a module (a corpus core, an
+    oscillator or a bistable pair) while its wiring stays (almost) the same, next to an optional
+    independent module.  Under different input valuations the percolated networks have the same
+    variables but different dynamics."""
+    cs = cores()
+    lines = ["i0, i0"]
+    kind = rng.choice(["maa", "maa", "multi", "osc"])
+    if kind == "osc":
+        n = 2
+        cn = ["m0", "m1"]
+        f = ["m1", "!m0"]
+    else:
+        c = rng.choice(cs[kind])
+        n = c["n"]
+        cn = [f"m{i}" for i in range(n)]
+        f = [tt_to_expr(n, c["tt"][i], cn) for i in range(n)]
+    alt_kind = rng.choice(["freeze", "other", "latch", "xor"])
+    for k in range(n):
+        if alt_kind == "freeze":
+            g = cn[k]
+        elif alt_kind == "latch":
+            g = f"{cn[k]} | {rng.choice(cn)}"
+        elif alt_kind == "xor":
+            o = rng.choice(cn)
+            g = f"({cn[k]} & !{o}) | (!{cn[k]} & {o})"
+        else:
+            g = rand_expr(rng, cn, 2)
+        a, b = (f[k], g) if rng.random() < 0.5 else (g, f[k])
+        lines.append(f"{cn[k]}, (i0 & ({a})) | (!i0 & ({b}))")
+    if extra and rng.random() < 0.7:
+        r = rng.random()
+        if r < 0.4:
+            lines += ["p, q", "q, p"]
+        elif r < 0.7:
+            lines += ["p, !q | (i0 & p)", "q, p"]
+        else:
+            lines += [f"p, p | {rng.choice(cn)}"]
+    if rng.random() < 0.3:
+        lines.append("i1, i1")
+        lines.append(f"z, (i1 & {rng.choice(cn)}) | (!i1 & z)")
+    return "\n".join(lines)
+
+
 def g_mixed(rng, nmax=6, p_core=0.4):
+    r = rng.random()
+    if nmax >= 5 and r < 0.12:
+        return g_modulated(rng, extra=nmax >= 6)
     r = rng.random()
     if r < 0.22:
         return g_lattice(rng, rng.randint(3, nmax))
